@@ -28,7 +28,9 @@ def solver_check(fn):
             R, tech = holder["R"], holder.get("tech", "abstract interpretation")
             if not SA.faults and not any(o.verdict == "differs" for o in grid_obs(SA)):
                 R.add(req_ob("R-INTERP", "src/bldfm/solver.py::steady_state_transport_solver", "the property's own rules can be evaluated on the abstract solver runs", None, detail=str(e)))
-        except AnalysisError as e:
+        except (AnalysisError, IndexError, AttributeError, KeyError) as e:
+            if not isinstance(e, AnalysisError):
+                e = AnalysisError("a returning path lacks the structure the rule is stated on (%s: %s)" % (type(e).__name__, e))
             # the property's own rules could not be evaluated; the structural rules shared by all solver properties
             # (module state, FFT wrapper state, argument mutation, dtype / index discipline) are still decided, so a
             # definite defect among them is reported as such and the rest as an analysis gap
